@@ -227,11 +227,11 @@ def _create_reader(numbering, content_types, relationships, styles, docx_file, f
         return parse_instr_text(instr_text, fld_char=fld_char)
 
     def parse_instr_text(instr_text, *, fld_char):
-        external_link_result = re.match(r'\s*HYPERLINK "(.*)"', instr_text)
+        external_link_result = re.match(r'\s*HYPERLINK "([^"]*)"', instr_text)
         if external_link_result is not None:
             return complex_fields.hyperlink(dict(href=external_link_result.group(1)))
 
-        internal_link_result = re.match(r'\s*HYPERLINK\s+\\l\s+"(.*)"', instr_text)
+        internal_link_result = re.match(r'\s*HYPERLINK\s+\\l\s+"([^"]*)"', instr_text)
         if internal_link_result is not None:
             return complex_fields.hyperlink(dict(anchor=internal_link_result.group(1)))
 
